@@ -1,13 +1,15 @@
 from pyvc.table_engine import TableEngine
 ID = "C07"
 LEVEL = "other"
-CONTRACT_MODULES = ["contracts.table_cache", "contracts.table_setitem", "contracts.table_desig", "contracts.table_split"]
+CONTRACT_MODULES = ["contracts.table_cache", "contracts.table_setitem", "contracts.table_desig", "contracts.table_split", "contracts.table_labels"]
 FUNCTIONS = ["Table._make_cache", "Table._get_cache", "Table._get_row_cache", "Table._get_row_cache_raise", "Table.__setitem__", "Table._append_row", "Table._concatenate_table", "Table.__delitem__", "Table.pop",
              # which row a designator (position / text / (name, count[, offset])) resolves to, and the entry points that forward to it
              "Table._get_row_index@int", "Table._get_row_index@str", "Table._get_row_index@tuple2", "Table._get_row_index@tuple3", "Table._get_row_index@other",
              "Table.__floordiv__@forwards", "_RowView.get_index@forwards",
              # what a designator TEXT denotes: the six spellings of the statement over SMT-LIB strings (pyvc/strsplit_engine.py, cvc5 --strings-exp)
-             "Table._split_name_count_offset@text"]
+             "Table._split_name_count_offset@text",
+             # the unique row labels: third result of _make_cache, handed out unchanged by cols.get_index_unique
+             "Table._make_cache@labels", "_ColView.get_index_unique@forwards-labels"]
 RAC = "rac/c07.py"
 RAC_BUDGET = {"quick": 60, "thorough": 900}
 RAC_MIN = {"quick": 8400, "thorough": 8400}      # fewer run-time evaluations than this = the harness skipped its work: checker broken, not "held"
@@ -39,15 +41,17 @@ ASSUMPTIONS = [
     "text designators: names / patterns contain none of the characters ':' '<' '>' (the alphabet of the three separators; with one of them the spellings of the "
     "statement are ambiguous), counts and offsets are texts int() accepts; the first-occurrence facts the path obligations use are proved per form from the form's hypotheses",
     "column arrays are not shared with another table that mutates them in place (row slices and _copy share arrays)",
-    "the unique-label array (third result of _make_cache, f-strings) is outside the proved contract; get_index_unique is "
-    "checked at run time",
+    "unique labels: proved is WHAT the label of each row is (the plain name when it occurs once, else f-string(name, _sep_count, occurrence number), "
+    "the f-string an uninterpreted function of its three values) and that cols.get_index_unique returns that array; that such a label resolves back to "
+    "its own row follows from the proved splitter (spellings 1 and 2) and the proved _get_row_cache_raise, with f-string == concatenation with str(int) "
+    "and int(str(c)) == c trusted (contracts/table_labels.py); the round trip itself is also checked at run time",
     "uniqueness of 'the' row with a given name and occurrence number is a property of the specification function "
     "(prefix counts strictly increase on the rows carrying the name)",
 ]
 BOUNDED = [
     "WHICH cell a write table[col, row] = v reaches (row-designator dispatch in __setitem__): run-time only "
     "(all update sequences of length <=2 on all index columns of length <=3/4, cache warmed before each update)",
-    "__getitem__/__setitem__ row-designator dispatch, cols.get_index_unique, text designators on tables built with other separators or with names containing "
+    "__getitem__/__setitem__ row-designator dispatch, the label round trip get_index_unique -> get_index on real tables (fixed-width string columns included), text designators on tables built with other separators or with names containing "
     "a separator character: run-time only (all designator spellings, reads and writes); t // row and rows.get_index(row) are proved to resolve "
     "the parsed / given (name, count, offset) against the current index column, and checked at run time as well",
 ]
@@ -60,5 +64,5 @@ EXPLANATION = ("proved for every index column, name, count and offset: a designa
                "otherwise -- and a store into any other column leaves them right: column-wise frame); every syntactic store into a "
                "table's data in the module sits in one of the methods carrying the invariant")
 LEVEL_TEXT = ("Mixed: the four cache functions and the class invariant across the five mutators are proved (z3); which cell a "
-              "write reaches and the unique labels are run-time contract checks against a linear-scan oracle. Never claimed as proof.")
+              "write reaches is a run-time contract check; the unique labels are proved as values, their round trip composed from proved contracts and checked at run time against a linear-scan oracle. Never claimed as proof.")
 LEVEL_NOTE = "See TRUSTED/BOUNDED in the evidence file."
